@@ -424,7 +424,21 @@ def _ill_conditioned(de, env, value):
         if v2[0] != "v":
             return True
         a, b = complex(value), complex(v2[1])
-        return not (abs(a - b) <= 1e-7 * (1 + abs(a)))
+        if not (abs(a - b) <= 1e-7 * (1 + abs(a))):
+            return True
+        # ... or the value is what is left of terms of size 1e13 cancelling (x**-2 * (3*x)**2 *
+        # K differentiates to -18*K/x + 18*K/x): anything below 1e-9 of the largest
+        # intermediate value is rounding noise on both sides
+        scale = 0.0
+        for x in G.walk(de):
+            if isinstance(x, p.Expression):
+                v = refsem.outcome(lambda: refsem.ev(x, env))
+                if v[0] == "v" and isinstance(v[1], (int, float, complex, F)):
+                    try:
+                        scale = max(scale, abs(complex(v[1])))
+                    except (OverflowError, TypeError):
+                        pass
+        return abs(a) <= 1e-9 * scale
     except (OverflowError, TypeError, ValueError):
         return True
 
